@@ -321,8 +321,9 @@ def check(pid, tier):
             r = tlc_mc(run, "DnsForward", "MC_DnsForward_nocoll.cfg", workers=4, timeout=300, coverage=False, tag="nocoll", expect_violation=True)
             refuted = (not r["ok"]) and r["violated"] is not None
         cases = GEN[pid](run.rng, run.thorough)
-        if pid == "C07":
+        if pid in ("C07", "C03"):
             # last: it may leave the TCP channel to that upstream dead for the rest of the process
+            # (C03: a reply that reaches the wrong query is another question's answer under one's own id)
             cases.append(c07_collision_case(run.rng, 6))
         lines, total = run_rig(run, pid, cases, pid.lower())
         cov = {
